@@ -142,6 +142,16 @@ func c11BuildPlugin(r *wk.Rand) *c11Plugin {
 			}
 			return "done", map[string]any{}
 		}))
+	// a step whose step data is of an interface type and that has no initialiser (the step data is nil): its signal
+	// handler is still a declared handler of a valid signal
+	steps = append(steps, schema.NewCallableStepWithSignals[any, any]("anydata", empty(),
+		map[string]*schema.StepOutputSchema{"done": schema.NewStepOutputSchema(empty(), nil, false)},
+		map[string]schema.CallableSignal{"ping": schema.NewCallableSignal[any, any]("ping", empty(), nil, func(hctx context.Context, d any, _ any) {
+			p.rec.mu.Lock()
+			p.rec.sigCalls = append(p.rec.sigCalls, c11Call{"anydata/ping", d, 0, c11Run(hctx)})
+			p.rec.mu.Unlock()
+		})}, nil, nil, nil,
+		func(_ context.Context, d any, _ any) (string, any) { return "done", map[string]any{} }))
 	p.schema = schema.NewCallableSchema(steps...)
 	return p
 }
@@ -254,6 +264,40 @@ func runC11(c *wk.Ctx) {
 
 func c11Sequential(c *wk.Ctx, ctx context.Context, r *wk.Rand, p *c11Plugin, env *gen.Env, idx int64) {
 	runN := 0
+	// nil step data of an interface type: signal first, then the step, then the signal again
+	for k, call := range []string{"signal", "step", "signal"} {
+		p.rec.mu.Lock()
+		before := len(p.rec.sigCalls)
+		p.rec.mu.Unlock()
+		var err error
+		var outID string
+		wit := map[string]any{"step": "anydata (StepData=any, no initialiser)", "call": call, "order": k}
+		c.Note("anydata " + call)
+		if pn, site, msg, _ := wk.Guard(func() {
+			if call == "signal" {
+				err = p.schema.CallSignal(ctx, fmt.Sprintf("any-%d", idx), "anydata", "ping", map[string]any{})
+			} else {
+				outID, _, err = p.schema.CallStep(ctx, fmt.Sprintf("any-%d", idx), "anydata", map[string]any{})
+			}
+		}); pn {
+			c.Violation("C11:panic:nil-step-data:"+site, fmt.Sprintf("a valid %s call on a step whose step data is a nil interface value panicked: %s", call, msg), wit)
+			break
+		}
+		c.Count("nil_step_data_calls")
+		if err != nil {
+			c.Violation("C11:nil-step-data:error", fmt.Sprintf("a valid %s call on a step without initialiser failed: %v", call, err), wit)
+			break
+		}
+		p.rec.mu.Lock()
+		ran := len(p.rec.sigCalls) - before
+		p.rec.mu.Unlock()
+		if call == "signal" && ran != 1 {
+			c.Violation("C11:nil-step-data:signal-handler-invocations", fmt.Sprintf("the signal handler ran %d times for one valid signal", ran), wit)
+		}
+		if call == "step" && outID != "done" {
+			c.Violation("C11:wrong-output-id", fmt.Sprintf("CallStep returned output ID %q, the handler returned \"done\"", outID), wit)
+		}
+	}
 	// unknown step IDs on schemas with exactly one step and with none (where a "the only step" fallback would hide)
 	for _, stepID := range p.stepIDs() {
 		single := schema.NewCallableSchema(p.schema.StepsValue[stepID])
